@@ -6,6 +6,7 @@
 package c25
 
 import (
+	"github.com/33cn/chain33/blockchain"
 	"bytes"
 	"fmt"
 	"math/big"
@@ -340,54 +341,66 @@ func runOrder(t lib.TB, test string, bt *builtTree, c caseSpec) runStats {
 	}
 seqlog:
 	// C26: sequence log
-	recs, last, err := n.SequenceLog()
+	h, _ := n.Tip()
+	rs.delRecords = seqLogOracle(t, test, c, n.GetBlockChain().GetStore(), h, "")
+	return rs
+}
+
+// seqLogOracle is the C26 oracle on a block store: sequence numbers 0..last all present, replaying them reproduces the
+// height->hash index, and hash->sequence of every best-chain block names an add record of it. Returns the number of
+// delete records.
+func seqLogOracle(t lib.TB, test string, c interface{}, st *blockchain.BlockStore, h int64, stage string) (delRecords int) {
+	last, err := st.LoadBlockLastSequence()
 	if err != nil {
-		lib.Violation(t, "C26", test, c, "sequence log is not gap-free: %v", err)
+		lib.Violation(t, "C26", test, c, "%ssequence log has no last sequence: %v", stage, err)
 	}
-	if int64(len(recs)) != last+1 {
-		lib.Violation(t, "C26", test, c, "sequence log has %d records, last sequence %d", len(recs), last)
+	var recs []chainfix.SeqRecord
+	for s := int64(0); s <= last; s++ {
+		r, err := st.GetBlockSequence(s)
+		if err != nil {
+			lib.Violation(t, "C26", test, c, "%ssequence log is not gap-free: sequence %d of 0..%d missing: %v", stage, s, last, err)
+		}
+		recs = append(recs, chainfix.SeqRecord{Seq: s, Hash: r.Hash, Type: r.Type})
 	}
-	st := n.GetBlockChain().GetStore()
 	cur := map[int64]string{}
 	top := int64(-1)
 	for _, r := range recs {
 		hdr, err := st.GetBlockHeaderByHash(r.Hash)
 		if err != nil {
-			lib.Violation(t, "C26", test, c, "sequence %d names unknown block %x", r.Seq, r.Hash)
+			lib.Violation(t, "C26", test, c, "%ssequence %d names unknown block %x", stage, r.Seq, r.Hash)
 		}
 		switch r.Type {
 		case types.AddBlock:
 			if hdr.Height != top+1 {
-				lib.Violation(t, "C26", test, c, "sequence %d adds height %d on top %d", r.Seq, hdr.Height, top)
+				lib.Violation(t, "C26", test, c, "%ssequence %d adds height %d on top %d", stage, r.Seq, hdr.Height, top)
 			}
 			cur[hdr.Height] = string(r.Hash)
 			top = hdr.Height
 		case types.DelBlock:
-			rs.delRecords++
+			delRecords++
 			if hdr.Height != top || cur[top] != string(r.Hash) {
-				lib.Violation(t, "C26", test, c, "sequence %d deletes %x at height %d but replay top is height %d hash %x", r.Seq, r.Hash, hdr.Height, top, cur[top])
+				lib.Violation(t, "C26", test, c, "%ssequence %d deletes %x at height %d but replay top is height %d hash %x", stage, r.Seq, r.Hash, hdr.Height, top, cur[top])
 			}
 			delete(cur, top)
 			top--
 		default:
-			lib.Violation(t, "C26", test, c, "sequence %d has unknown type %d", r.Seq, r.Type)
+			lib.Violation(t, "C26", test, c, "%ssequence %d has unknown type %d", stage, r.Seq, r.Type)
 		}
 	}
-	h, _ := n.Tip()
 	if top != h {
-		lib.Violation(t, "C26", test, c, "replaying the sequence log ends at height %d, node is at %d", top, h)
+		lib.Violation(t, "C26", test, c, "%sreplaying the sequence log (0..%d) ends at height %d, node is at %d", stage, last, top, h)
 	}
 	for x := int64(0); x <= h; x++ {
 		hash, _ := st.GetBlockHashByHeight(x)
 		if cur[x] != string(hash) {
-			lib.Violation(t, "C26", test, c, "replay gives %x at height %d, node index has %x", cur[x], x, hash)
+			lib.Violation(t, "C26", test, c, "%sreplay gives %x at height %d, node index has %x", stage, cur[x], x, hash)
 		}
 		seq, err := st.GetSequenceByHash(hash)
 		if err != nil || seq < 0 || seq > last || !bytes.Equal(recs[seq].Hash, hash) || recs[seq].Type != types.AddBlock {
-			lib.Violation(t, "C26", test, c, "hash->sequence of best-chain block at height %d is %d (err %v), which is not an add record of it", x, seq, err)
+			lib.Violation(t, "C26", test, c, "%shash->sequence of best-chain block at height %d is %d (err %v), which is not an add record of it", stage, x, seq, err)
 		}
 	}
-	return rs
+	return delRecords
 }
 
 func tdStr(bt *builtTree, id int) string {
